@@ -223,7 +223,8 @@ func (fs *Filespace) WriteFile(destPath string, data []byte, filemode os.FileMod
 	dir.Lock()
 	defer dir.Unlock()
 	if node, err = dir.getNode(destNodeName); err != nil {
-		file = NewFile(destNodeName, filesystem.DefaultUnixFileMode, time.Now(), data)
+		file = NewFile(destNodeName, filesystem.DefaultUnixFileMode, time.Now(), nil)
+		file.setData(data)
 		return dir.addNode(file)
 	}
 	if file, ok = node.(*File); !ok {
